@@ -566,6 +566,11 @@ func (s *Stream) onInboundStreamReset() {
 	//	is completed, the data channel is closed.
 
 	s.readErr = io.EOF
+	if s.readTimeoutCancel != nil {
+		// end-of-file is final: a pending read deadline no longer matters
+		close(s.readTimeoutCancel)
+		s.readTimeoutCancel = nil
+	}
 	s.readNotifier.Broadcast()
 
 	if s.state == StreamStateClosing {
